@@ -562,6 +562,71 @@ def run(repo, rep, tier):
                         'special', TYP, br.lineno,
                         'NaN / INF / -INF spelling not handled for %s'
                         % tname)
+        # string surgery on the formatted number keys on the exponent marker
+        # alone: the G/E/g/e format writes 'E+NN' as well as 'E-NN', so a
+        # separator such as 'E+' handles only one of the two signs
+        for x in ast.walk(_Body(br.body)):
+            if isinstance(x, ast.Call) and isinstance(x.func, ast.Attribute) \
+                    and x.func.attr in ('split', 'rsplit', 'partition',
+                                        'rpartition', 'find', 'rfind',
+                                        'index', 'rindex', 'replace',
+                                        'startswith', 'endswith') and x.args:
+                sep = const_str(x.args[0])
+                if sep is None:
+                    continue
+                marker_in = any(ch in sep for ch in 'Ee')
+                ok = not (marker_in and len(sep) > 1)
+                r6.ob(ok, 'atomic:%s-surgery:%s' % (tname, sep),
+                      {'type': tname, 'operation': norm(x, 60),
+                       'separator': sep})
+                if not ok:
+                    rep.finding(
+                        r6, atom.qualname, '%s: %s' % (tname, norm(x, 60)),
+                        'exponent-separator', TYP, x.lineno,
+                        'the formatted %s is taken apart at %r, which '
+                        'matches only one exponent sign (the format writes '
+                        'E+NN and E-NN): for the other sign the text is '
+                        'rebuilt wrongly and does not parse back'
+                        % (tname, sep))
+    _r8_exact_fields(repo, rep)
+
+
+def _r8_exact_fields(repo, rep):
+    """C06.R8: the fields of the CIM datetime string are computed with exact
+    integer arithmetic."""
+    r8 = rep.rule('C06.R8', 'CIMDateTime fields are computed with exact '
+                  'integer arithmetic (no float path for days/microseconds)')
+    dt = repo.cls(TYP, 'CIMDateTime')
+    big = ('.days', '.microseconds', 'total_seconds')
+    for m in dt.methods.values():
+        r8.sites += 1
+        r8.functions.add(m.fq)
+        for n in walk_no_nested(m.node):
+            why = None
+            if isinstance(n, ast.Call) and \
+                    isinstance(n.func, ast.Attribute) and \
+                    n.func.attr == 'total_seconds':
+                why = ('timedelta.total_seconds() is a float: from 2**33 '
+                       'seconds (about 272 years) on it cannot hold '
+                       'microseconds exactly, while a CIM interval has 8 '
+                       'digits of days and 6 of microseconds')
+            elif isinstance(n, ast.BinOp) and isinstance(n.op, ast.Div) and \
+                    any(b in norm(n.left) for b in big):
+                why = ('true division of a days/microseconds quantity '
+                       'yields a float that cannot hold the full interval '
+                       'range exactly')
+            elif isinstance(n, ast.Call) and dotted(n.func) == 'float' and \
+                    n.args and any(b in norm(n.args[0]) for b in big):
+                why = ('float() of a days/microseconds quantity cannot hold '
+                       'the full interval range exactly')
+            if why:
+                rep.finding(r8, m.qualname, norm(n, 70), 'float-path', TYP,
+                            n.lineno, why + ': the printed datetime differs '
+                            'from the value (seconds off by one, or a '
+                            '9-digit days field)')
+        r8.ob(True, m.qualname)
+    if r8.sites < 10:
+        raise AnalysisError('CIMDateTime: only %d methods' % r8.sites)
 
 
 def _typed_name(repo, module, func, name, tparam=None, fixed=True):
